@@ -565,3 +565,7 @@ def run(repo: Repo, rep: Report, tier: str) -> None:
     # ---------------- R22 --------------------------------------------------------------
     _borrow15(repo, rep, "C01", "C01-R17", "C15-R22", "`cond : param` in a function body forwards the argument on the argument's own signal, as the substituted body does: the analyzer "
               "knows a parameter only by a placeholder type, so the gate's output type comes from the lowered value", select=lambda o: "output type #" in o.construct, floor=4)
+
+    # ---------------- R23 --------------------------------------------------------------
+    _borrow15(repo, rep, "C16", "C16-R11", "C15-R23", "a loop in a function body whose iterator is named like a parameter runs over its own values, as it does once the body is substituted "
+              "with the parameter replaced by the argument", floor=1)
